@@ -53,6 +53,17 @@ CHECKS = {
             "closing delimiters are treated as layout (rustfmt/prettyplease add or drop them when re-wrapping); a child that never "
             "reads and never exits is outside the property.",
             "6/C15"),
+    "C17": ("exploration",
+            "exhaustive enumeration of include DAGs (all on <=4|5 nodes) x include form x guard style, conditional regions on "
+            "every edge, odd names, sibling directories, several inputs, env vars; each executed on the real generator and "
+            "compared with generator ground truth + clang -M; depfile parsed back by GNU make",
+            "Every include graph within the bound is generated on disk and run through the real parser; the depfile (as GNU make "
+            "parses it), the header_file/include_file callback log and CargoCallbacks' cargo: lines must name exactly the files "
+            "that were read (reachability through active edges, cross-checked against `clang -M` on every plain-named case); "
+            "environment variables that change the bindings must be reported exactly once.",
+            "File contents are typedef/macro only; names outside the property's list ('=' and ':' which make cannot express) are "
+            "not generated; header_contents inputs are not files and are allowed either way.",
+            "6/C17"),
 }
 
 NOT_YET = "check not built yet in this round (see DESIGN.md section 10a for the plan)"
